@@ -8,13 +8,13 @@ def jobs(tier):
     q = tier == "quick"
     return [
         # clauses 1+2: packet structure (framing model) and multistream == stand-alone decoding through the mapping
-        Job("c10_multistream", "flt-asan", "random", workers=W, cases=400 if q else 9000, maxtime=120 if q else 900),
+        Job("c10_multistream", "flt-asan", "random", workers=W, cases=1200 if q else 20000, maxtime=120 if q else 900),
         # clause 3: every (family, channels) pair for both creation functions, then random plain layouts
         Job("c10_layouts", "flt-asan", "enumerate", workers=W, enum_stride=1, maxtime=120 if q else 600),
-        Job("c10_layouts", "flt-asan", "random", workers=W, cases=1500 if q else 40000, maxtime=60 if q else 300),
+        Job("c10_layouts", "flt-asan", "random", workers=W, cases=4000 if q else 60000, maxtime=60 if q else 300),
         # clause 4: matrix identity for the five orders (exhaustive over entries), projection round trips
         Job("c10_matrix", "flt-asan", "enumerate", workers=10, enum_stride=1, maxtime=60, refs=("ref-flt",)),
-        Job("c10_matrix", "flt-asan", "random", workers=W, cases=12 if q else 250, maxtime=120 if q else 600, refs=("ref-flt",)),
+        Job("c10_matrix", "flt-asan", "random", workers=W, cases=40 if q else 600, maxtime=120 if q else 600, refs=("ref-flt",)),
     ]
 
 
@@ -35,7 +35,7 @@ PROP = dict(
         "c10_multistream/decode-fec-with-lbrr": 3, "c10_multistream/layout-duplicate": 150, "c10_multistream/layout-muted": 100,
         "c10_multistream/layout-coupled": 300, "c10_multistream/layout-huge": 15, "c10_multistream/format:int16": 100,
         "c10_multistream/format:float": 200, "c10_multistream/format:int24": 100, "c10_multistream/rejected-damaged": 10,
-        "c10_multistream/last-stream-padded": 40, "c10_multistream/multi-frame-sub-packets": 100,
+        "c10_multistream/last-stream-padded": 40, "c10_multistream/lfe-stream-checked": 30, "c10_multistream/multi-frame-sub-packets": 100,
         "c10_layouts/surround-legal": 500, "c10_layouts/surround-illegal": 60000, "c10_layouts/projection-legal": 10,
         "c10_layouts/projection-illegal": 60000, "c10_layouts/decoder-layout-valid": 300, "c10_layouts/decoder-layout-invalid": 300,
         "c10_layouts/encoder-layout-valid": 200, "c10_layouts/valid-for-decoder-only": 100,
